@@ -29,3 +29,12 @@ EXPLANATION = ('Structural: code under `if self.debug:` only prints and DEBUG is
                'property for all strings over {a, CR, LF} up to length 5 (7) and all offsets incl. the end; error positions of malformed patterns; pretty() terminates and equals repr up to whitespace.')
 LEVEL_TEXT = EXPLANATION
 TECHNIQUE = 'effect obligation over the parser AST + bounded (exhaustive small scope) evaluation of the diagnostic contracts'
+
+
+def _progress(ctx):
+    from pyvc import structural
+    res = structural.token_progress(ctx)
+    return [o for o in res if o['id'].startswith('C20')]
+
+
+STRUCTURAL = (globals().get('STRUCTURAL') or []) + [_progress]
